@@ -820,3 +820,45 @@ Example ex_solves_after_update :
   map so_model (o_trace (snd (step fixed w (0, OGradient)))) = [1; 1; 1; 1]
   /\ ask fixed w 0 QSynthetic = (RNone, [Syn 1 0; Syn 1 1]).
 Proof. vm_compute. split; reflexivity. Qed.
+
+(* ------------- recomputing ONE slot leaves the synthetic data of all others alone *)
+Lemma compute_slots_frame f st s sl j : mem j sl = false ->
+  s_syn (r_sim (compute_slots f st s sl)) j = s_syn s j.
+Proof.
+  intros Hj. unfold compute_slots. destruct (existsb _ sl).
+  - destruct sl as [|i sl]; [reflexivity|]. cbn [r_sim]. destruct (missing f st s i); reflexivity.
+  - cbn [r_sim]. destruct sl; cbn [set_fields s_syn]; rewrite Hj; reflexivity.
+Qed.
+
+Lemma ensure_slot_frame f st s i j : j <> i ->
+  s_syn (r_sim (ensure_slot f st s i)) j = s_syn s j.
+Proof.
+  intros Hj. unfold ensure_slot.
+  destruct (eff f st s i) as [t|]; [destruct t; reflexivity|].
+  apply compute_slots_frame. unfold mem. cbn. apply Nat.eqb_neq in Hj. rewrite Hj. reflexivity.
+Qed.
+
+Lemma single_slot_frame_proof q w k i (geth : bool) s s' :
+  nth_error (w_sims w) k = Some s ->
+  nth_error (w_sims (fst (step q w (k, if geth then OGetH i else OGetE i)))) k = Some s' ->
+  forall j, j <> i -> s_syn s' j = s_syn s j.
+Proof.
+  intros E E' j Hj. assert (Hk : k < length (w_sims w)) by (apply nth_error_Some; congruence).
+  unfold step in E'. rewrite E in E'.
+  destruct geth; unfold of_res in E'; cbn [fst put w_sims] in E';
+    rewrite (nth_error_upd_same k _ _ Hk) in E'; inversion E'; subst s';
+    apply ensure_slot_frame; exact Hj.
+Qed.
+
+(* the state "results kept, fields dropped, one slot recomputed" is reachable, and in it
+   all synthetic data are still there and misfit / gradient are the fresh ones *)
+Example ex_results_kept_one_slot :
+  let w := run fixed (init_world 4 false 0) [(0, OCompute); (0, OClean CKeep); (0, OGetE 2)] in
+  enc_world w = enc_world (run fixed (init_world 4 false 0) [(0, OCompute); (0, OClean CKeep); (0, OGetE 2)])
+  /\ (match nth_error (w_sims w) 0 with
+      | Some s => (map (s_syn s) (seq 0 4), map (s_efield s) (seq 0 4), s_computed s, s_misfit s)
+      | None => (@nil tag, @nil (option tag), false, @None tag) end)
+     = ([Syn 0 0; Syn 0 1; Syn 0 2; Syn 0 3], [None; None; Some (Efield 0 2); None], true, None)
+  /\ ask fixed w 0 QMisfit = (RVal (Misfit 0), [])
+  /\ ask fixed w 0 QGradient = (RVal (Grad 0), []).
+Proof. vm_compute. repeat split. Qed.
